@@ -510,6 +510,11 @@ class Check:
             seen_keys.add(v["key"])
             p = os.path.join(OUT, "replays", "%s-%d-%d.json" % (self.prop, self.seed, i))
             json.dump({"property": self.prop, "tier": self.tier, "seed": self.seed, **v}, open(p, "w"), indent=1)
+            try:   # rolling log of everything ever reported (replays/ is cleared at the start of the next run of the property)
+                with open(os.path.join(BUILD, "violations.log"), "a") as lf:
+                    lf.write(json.dumps({"time": time.strftime("%Y-%m-%dT%H:%M:%S"), "repo": REPO, "property": self.prop, "tier": self.tier, "seed": self.seed, **v}) + "\n")
+            except OSError:
+                pass
             replay_paths.append(p)
             print("VIOLATION property=%s replay=%s key=%s" % (self.prop, p, v["key"]))
             print("  detail: " + v["detail"][:800].replace("\n", "\n  "))
